@@ -12,7 +12,7 @@ RULE = ('every generated program (reference grammar of C01 and the analysable un
         'respelling kinds)')
 
 TRIVIA = [' ', '  ', '\t', '\n', '\r\n', ' \n ', '\n\n', ' (* c *) ', '(* c *)', ' (* ( *) ', '(***)', ' (* a\nb *) ', '(* é *)',
-          '\t(* x ** y *)\t', ' (**) ', ' (** d **) ', '(* e ***)', '\n(* l1\r\nl2 *)\n', ' \f ', '(* ; END_IF *)']
+          '\t(* x ** y *)\t', ' (**) ', ' (** d **) ', '(* e ***)', ' (* { *) ', '(* } *)', ' (* {x *) ', '(* a } b { c *)', '\n(* l1\r\nl2 *)\n', ' \f ', '(* ; END_IF *)']
 
 
 def respell_word(rng, w, mode):
@@ -22,7 +22,7 @@ def respell_word(rng, w, mode):
 
 
 def respell(rng, lex, kinds):
-    """kinds: subset of {'kw', 'pk', 'id', 'trivia', 'endif', 'hex'} -> text"""
+    """kinds: subset of {'kw', 'kwlower', 'pk', 'id', 'trivia', 'endif', 'hex'} -> text"""
     out = []
     i = 0
     n = len(lex)
@@ -41,6 +41,7 @@ def respell(rng, lex, kinds):
         elif k == 'kw':
             w = x[1]
             if 'kw' in kinds: w = respell_word(rng, w, rng.choice(['lower', 'mixed', 'upper']))
+            if 'kwlower' in kinds: w = w.lower()          # every keyword of the text in lower case (no upper-case spelling left anywhere)
             out.append(w)
             if 'endif' in kinds and x[1] == 'END_IF' and rng.random() < 0.6:
                 # drop the optional semicolon (and the gap before it) that follows END_IF
@@ -116,7 +117,7 @@ def run(ctx):
                 decls = pick[2]
         progs.append(('unit', unit_lex(units.print_file(decls, rng)), frozenset(['unit'])))
     cases = []
-    KINDS = [('kw',), ('pk',), ('id',), ('trivia',), ('endif',), ('hex',), ('kw', 'pk', 'id', 'trivia', 'endif', 'hex')]
+    KINDS = [('kw',), ('pk',), ('id',), ('trivia',), ('endif',), ('hex',), ('kwlower',), ('kwlower', 'endif'), ('kw', 'pk', 'id', 'trivia', 'endif', 'hex')]
     for pi, (src, lex, feats) in enumerate(progs):
         canon = refgrammar.spell(lex)
         cases.append({'prog': pi, 'spelling': 'canonical', 'text': canon, 'feats': feats})
